@@ -56,8 +56,12 @@ def run(chk, units=None):
             for u in units:
                 u["formulas"] = [f for f in u["formulas"] if f["fam"] not in ("mexpr-ambiguous",)]
                 # prune only moderately sized trees (the number of prunings grows quickly)
-                small = [t for t in u["trees"] if pj.size(t) <= 16] or u["trees"][:10]
-                u["open"] = open_trees(chk, wd, u["name"], u["g"], small[:60], TIERS[chk.tier][u["name"]][3])
+                byshape = sorted(u["trees"], key=lambda t: (pj.size(t), json.dumps(t, sort_keys=True)))
+                small = [t for t in byshape if pj.size(t) <= 14][:40]
+                large = [t for t in byshape if 14 < pj.size(t) <= 34]
+                rnd = random.Random(chk.seed + 17)
+                large = rnd.sample(large, min(len(large), 25 if chk.tier == "quick" else 150))
+                u["open"] = open_trees(chk, wd, u["name"], u["g"], small + large, TIERS[chk.tier][u["name"]][3])
         tasks, index = [], []
         for ui, u in enumerate(units):
             for c in chunks(u["formulas"], max(1, min(len(u["formulas"]), NPROC * 2))):
@@ -100,7 +104,9 @@ def run(chk, units=None):
                 chk.note("exceptions_on_open_trees", sum(1 for o in row if o["e"].startswith("X:")))
             for _, fid, o, e, c in r.tuples("REFUTED"):
                 u, f = byid[fid]
-                chk.mismatch({"family": f["fam"], "verdict": e, "grammar": u["name"], "numeric": F.has_numeric(f["ast"])},
+                chk.mismatch({"family": f["fam"], "verdict": e, "grammar": u["name"], "numeric": F.has_numeric(f["ast"]),
+                              "uses_count": "count(" in f["text"],
+                              "count_negated": "count(" in f["text"] and f["text"].count("count(") == f["text"].count("not (count(")},
                              {"grammar_name": u["name"], "formula": f, "open_tree": u["open"][o - 1], "open_string": pj.jyield(u["open"][o - 1]),
                               "completion": u["trees"][c - 1], "completion_string": pj.jyield(u["trees"][c - 1]), "evaluate": e})
         if n != sum(len(c) for _, c, _ in jobs):
